@@ -8,6 +8,7 @@ import (
 	"time"
 
 	"github.com/metrico/qryn/reader/logql/logql_parser"
+	"github.com/metrico/qryn/reader/logql/logql_transpiler_v2/shared"
 	"verif/harness/coqx"
 )
 
@@ -313,10 +314,17 @@ type Facts struct {
 	Unwrapped bool   `json:"unwrapped,omitempty"`
 	AggFn     string `json:"agg_fn,omitempty"`
 	Quantile  bool   `json:"quantile,omitempty"`
+	// a label_format stage in the pipeline handed to the ClickHouse planners
+	LabelFormat bool `json:"label_format,omitempty"`
 }
 
 func scriptFacts(s *logql_parser.LogQLScript) *Facts {
 	f := &Facts{}
+	for _, ppl := range shared.GetStrSelector(s).Pipelines {
+		if ppl.LabelFormat != nil {
+			f.LabelFormat = true
+		}
+	}
 	var lra *logql_parser.LRAOrUnwrap
 	agg := s.AggOperator
 	switch {
